@@ -40,6 +40,18 @@ CHECKS = {
  "C03": dict(engine="schedsim", cat="exploration", ref="DESIGN.md §6 C03",
    text="Seeded exploration of multi-writer/reader/Stats/Close interleavings: one-writer monitor, consecutive ids, serial replay of every writer's reads against the model in id order, invisibility of failed bodies, porcupine linearizability of the txid history, deadlock detection, Close semantics. Race freedom is not decided by this arm.",
    tech="deterministic simulation: seeded token scheduler, serial-replay oracle + porcupine linearizability of the recorded history"),
+ "C10": dict(engine="reclaimsim", cat="exploration", ref="DESIGN.md §6 C10",
+   text="Seeded overwrite workloads with reader open/close patterns between write transactions; the pending-page count after reader-free commits is bounded by what the independent decoder says the commit released, pages of open readers' versions are never written, and steady workloads stay within a copy-on-write growth bound.",
+   tech="deterministic simulation: seeded reader open/close patterns over overwrite workloads, decoder-derived reclamation bounds, pwrite monitor"),
+ "C14": dict(engine="schedsim", cat="exploration", ref="DESIGN.md §6 C14",
+   text="Seeded multi-task runs in which backup tasks copy a read transaction (WriteTo into a writer that yields on every Write, CopyFile, WriteFlag) while writer tasks keep committing; the copy must have Tx.Size() bytes, decode cleanly to the snapshot's model version, open, dump equal and pass Tx.Check.",
+   tech="deterministic simulation: token scheduler, harness io.Writer as a scheduling seam during WriteTo"),
+ "C16": dict(engine="batchsim", cat="exploration", ref="DESIGN.md §6 C16",
+   text="Seeded runs of concurrent Batch callers under the token scheduler and fake clock (batch timers fire only when the scheduler advances time), with per-call failure plans; exactly-once tokens and read-modify-write counters per nil return, own error/panic per failure, every call returns.",
+   tech="deterministic simulation: token scheduler + synctest fake clock over DB.Batch, exactly-once token/counter oracle"),
+ "C17": dict(engine="locksim", cat="exploration", ref="DESIGN.md §6 C17",
+   text="Seeded open/close schedules of read-write and read-only handles on one path under the token scheduler and fake clock against a lock model; seeded API programs and the CLI inspection commands against a read-only handle with every I/O call observed and the file hash compared; writes into returned memory must fault or leave content unchanged.",
+   tech="deterministic simulation: token scheduler + fake clock over flock retry/timeout, I/O interposition on a read-only handle, fault-or-copy probe"),
 }
 
 NA_PENDING = {}
@@ -62,7 +74,10 @@ m = {
    {"name":"crashsim","path":"props/crashsim.go","serves_properties":["C01","C06"],"kind_free_text":"record-once history over the shadow disk, crash-state construction, real recovery; pwrite monitor"},
    {"name":"faultsim","path":"props/faultsim.go","serves_properties":["C08"],"kind_free_text":"k-th I/O call of a commit fails; state, readers, next writer and reopen checked"},
    {"name":"sizesim","path":"props/sizesim.go","serves_properties":["C18"],"kind_free_text":"growing workloads under MaxSize with a file-length monitor on the I/O hooks"},
-   {"name":"schedsim","path":"props/schedsim.go","serves_properties":["C02","C03"],"kind_free_text":"multi-task runs under the token scheduler inside a synctest bubble"},
+   {"name":"schedsim","path":"props/schedsim.go","serves_properties":["C02","C03","C14"],"kind_free_text":"multi-task runs under the token scheduler inside a synctest bubble"},
+   {"name":"batchsim","path":"props/batchsim.go","serves_properties":["C16"],"kind_free_text":"concurrent Batch callers under the token scheduler and fake clock"},
+   {"name":"locksim","path":"props/locksim.go","serves_properties":["C17"],"kind_free_text":"lock schedules under scheduler + fake clock; read-only handle under I/O observation; CLI"},
+   {"name":"reclaimsim","path":"props/reclaimsim.go","serves_properties":["C10"],"kind_free_text":"overwrite workloads with reader patterns; decoder-derived reclamation bounds"},
    {"name":"modelsim","path":"props/modelsim.go","serves_properties":["C04","C05","C07","C12"],"kind_free_text":"fault-free single-task arm of the simulator: seeded programs, reference model, independent decoder"},
  ],
  "checks": [],
